@@ -24,6 +24,13 @@ fn main() {
         vkit::runner::install_panic_hook();
         std::process::exit(vkit::checks::c08::run_one(std::path::Path::new(&args[3])));
     }
+    // seed corpora for the libFuzzer targets: vcheck <C08|C01> --emit-corpus <dir> <n> [seed]
+    if args.get(2).map(|s| s.as_str()) == Some("--emit-corpus") {
+        let dir = std::path::Path::new(args.get(3).map(|s| s.as_str()).unwrap_or_else(|| usage()));
+        let n: usize = args.get(4).and_then(|s| s.parse().ok()).unwrap_or(500);
+        let seed: u64 = args.get(5).and_then(|s| s.parse().ok()).unwrap_or(0);
+        std::process::exit(vkit::fuzzing::emit_corpus(&id, dir, n, seed));
+    }
     let mut tier = match std::env::var("VERIF_TIER").as_deref() {
         Ok("thorough") => Tier::Thorough,
         _ => Tier::Quick,
